@@ -394,9 +394,13 @@ class Machine:
             elif k == "index":
                 v = cur.load()
                 i = fr.locals[p[1]]
+                seq = v.f if isinstance(v, (Arr, Tup)) else self.prog.index_special(self, v)
                 if is_sym(i):
-                    raise Unsupported("symbolic index")
-                cur = Ptr(v.f if isinstance(v, (Arr, Tup)) else self.prog.index_special(self, v), i)
+                    # fork over the possible positions (the bounds-check assert precedes the access in MIR)
+                    i = self.concretize(i, list(range(len(seq))), "index")
+                    if i == "other":
+                        raise Panic("index out of bounds (symbolic index)")
+                cur = Ptr(seq, i)
             elif k == "cindex":
                 v = cur.load()
                 seq = v.f if isinstance(v, (Arr, Tup)) else self.prog.index_special(self, v)
